@@ -485,8 +485,7 @@ def monitor(sc, hsegs):
     {clause, op, what, in_window}."""
     findings = []
     stats = {"passwd": 0, "changed": 0, "refused": 0, "snaps": 0, "snaps_bad_in_window": 0, "auth_ok": 0, "auth_fail": 0,
-             "cred": 0, "reload": 0, "errkinds": {}, "prefix_unloadable": 0, "new_loadable": 0, "unsynced_success": 0,
-             "crypt_selfverify": 0}
+             "cred": 0, "reload": 0, "errkinds": {}, "prefix_unloadable": 0, "prefix_loadable": 0, "new_loadable": 0, "unsynced_success": 0}
     ents = None
     names = {}
     known = dict(sc.known0)
@@ -622,9 +621,7 @@ def monitor(sc, hsegs):
                         bad("M6", i, "the complete new serialisation on disk does not load to the stored database")
                 elif new_hex is not None and main != old_hex and main is not None and \
                         new_hex.startswith(main if main != "-" else "") and len(main if main != "-" else "") < len(new_hex):
-                    stats["prefix_unloadable"] += 1
-                    if s.get("loadable") == "1" and s.get("img") == new_img:
-                        pass
+                    stats["prefix_unloadable" if s.get("loadable") == "0" else "prefix_loadable"] += 1
                 if not good:
                     if inw:
                         stats["snaps_bad_in_window"] += 1
@@ -878,7 +875,9 @@ def random_scenario(i):
 # --------------------------------------------------------------------------- evaluation of a batch
 
 def evaluate(binp, scs, tag):
-    """Runs a batch of scenarios through harness and driver in one process each; returns per-scenario results."""
+    """Runs a batch of scenarios through harness and driver (one process each); returns per-scenario results.
+    When the harness process aborts (sanitizer report = a result), the batch is re-run one scenario at a time so
+    that the abort is attributed to the scenario that causes it."""
     lines = []
     bounds = []
     for sc in scs:
@@ -886,6 +885,11 @@ def evaluate(binp, scs, tag):
         bounds.append((len(lines), len(lines) + len(ls)))
         lines += ls
     hsegs, rc, err = run_harness(binp, lines, tag)
+    if rc != 0 and len(scs) > 1:
+        out = []
+        for j, sc in enumerate(scs):
+            out += evaluate(binp, [sc], "%s_%d" % (tag, j))
+        return out
     all_ops = [o for sc in scs for o in sc.ops]
     dsegs = run_driver(driver_script(all_ops, hsegs))
     res = []
@@ -901,16 +905,44 @@ def evaluate(binp, scs, tag):
                         "model": cm[first][:400] if first < len(cm) else None}
                 break
         findings, stats = monitor(sc, hs)
-        crashed = (rc != 0 and b == len(lines) and (not hsegs[b - 1]))
+        stats["crypt"] = crypt_assumptions(hs)
         res.append({"sc": sc, "diff": diff, "findings": findings, "stats": stats, "hsegs": hs, "dsegs": ds,
-                    "crashed": crashed, "stderr": err[-3000:] if crashed else ""})
-    if rc != 0:
-        # a sanitizer abort ends the process: attribute it to the first scenario without complete output
-        for r_ in res:
-            if any(not s for s in r_["hsegs"]):
-                r_["crashed"] = True
-                r_["stderr"] = err[-3000:]
-                break
+                    "crashed": rc != 0, "stderr": err[-3000:] if rc != 0 else ""})
+    return res
+
+
+def crypt_assumptions(hsegs):
+    """The two CryptOk assumptions evaluated on the crypt calls the real code made in one scenario:
+    verifies: crypt(p, s) = h and a later crypt(p, h) = r  =>  r = h;   distinct: crypt(p, s) = crypt(q, s) => p = q."""
+    calls = []
+    for seg in hsegs:
+        for ln in seg:
+            if ln.startswith("crypt "):
+                w = ln.split()
+                calls.append((w[1], w[2], w[3]))
+    res = {"calls": len(calls), "verifies_checked": 0, "verifies_failed": 0, "distinct_checked": 0, "distinct_failed": 0,
+           "failure_tokens": 0, "null": 0}
+    produced = {}      # password -> set of proper hashes crypt produced for it
+    by_setting = {}
+    for p, s_, r in calls:
+        if not r.startswith("S"):
+            res["null"] += 1
+            continue
+        h = r[1:] or "-"
+        if h.startswith("2a"):          # "*0" / "*1": libcrypt's failure tokens, outside both assumptions
+            res["failure_tokens"] += 1
+            continue
+        if s_ in produced.get(p, ()):
+            res["verifies_checked"] += 1
+            if h != s_:
+                res["verifies_failed"] += 1
+        produced.setdefault(p, set()).add(h)
+        for q, hq in by_setting.get(s_, {}).items():
+            if q != p:
+                res["distinct_checked"] += 1
+                if hq == h:
+                    res["distinct_failed"] += 1
+        by_setting.setdefault(s_, {})[p] = h
     return res
 
 
@@ -937,6 +969,7 @@ def replay_obj(ctx, r, clause, what):
     return {"property": "C20", "scenario": sc.name, "family": sc.family, "seed": ctx.seed, "variant": "default",
             "failing_clause": clause, "what": what,
             "script": sc.lines(), "how": "build harness/comp/authfile.c as vlib/props/c20.py:build() does; run `authfile <workdir> < script`",
+            "truth": {hx(k): hx(v) for k, v in sc.truth.items()}, "known0": {hx(k): hx(v) for k, v in sc.known0.items()},
             "impl_trace": [ln[:600] for seg in r["hsegs"] for ln in seg][:400],
             "model_trace": [ln[:600] for seg in r["dsegs"] for ln in seg][:400],
             "first_difference": r["diff"]}
@@ -958,6 +991,41 @@ def load_scenario_file(rel):
     return Scenario(rel, ops, truth)
 
 
+def scenario_from_replay(obj):
+    ops = [o for o in (parse_op(ln) for ln in obj["script"]) if o is not None]
+    truth = {C.unhex(k): C.unhex(v) for k, v in obj.get("truth", {}).items()}
+    known0 = {C.unhex(k): C.unhex(v) for k, v in obj.get("known0", {}).items()}
+    return Scenario(obj.get("scenario", "replay"), ops, truth, obj.get("family", "replay"), known0)
+
+
+def run_replay(ctx, out, binp):
+    """./check C20 --replay <file>: re-run the script of a replay file (or a scenarios/*.txt script)."""
+    import json
+    if ctx.replay.endswith(".txt"):
+        sc = load_scenario_file(os.path.relpath(os.path.abspath(ctx.replay), C.ROOT))
+    else:
+        sc = scenario_from_replay(json.load(open(ctx.replay)))
+    r = evaluate(binp, [sc], "replay")[0]
+    kf_open = {e["id"] for e in C.open_findings("C20")}
+    hard = [f for f in r["findings"] if not f["in_window"]]
+    soft = [f for f in r["findings"] if f["in_window"]]
+    for f in r["findings"]:
+        C.log("  %s op %d: %s%s" % (f["clause"], f["op"], f["what"], " [inside F24 window]" if f["in_window"] else ""))
+    if r["diff"]:
+        C.log("  model/implementation differ: %r" % (r["diff"],))
+    if r["crashed"]:
+        out.violation("the real code aborted", replay_obj(ctx, r, "abort", r["stderr"]))
+    elif hard or (soft and ("F24" not in kf_open or r["diff"] is not None)):
+        f = (hard or soft)[0]
+        out.violation("C20 %s: %s" % (f["clause"], f["what"]), replay_obj(ctx, r, f["clause"], f["what"]))
+    elif r["diff"] is not None:
+        out.violation("model and code differ", replay_obj(ctx, r, "correspondence", "model and implementation differ"), no_input=True)
+    elif soft:
+        out.known_finding("F24 truncate-then-write is not crash-atomic: %s" % soft[0]["what"])
+    out.coverage.update({"traces_validated_against_impl": 1, "evaluations": sum(
+        v for k, v in r["stats"].items() if isinstance(v, int)), "replay": ctx.replay})
+
+
 # --------------------------------------------------------------------------- entry point
 
 def run(ctx, out):
@@ -973,6 +1041,8 @@ def run(ctx, out):
         "into the file (page cache = disk); the code never calls fsync, durability after power loss is not claimed",
         "the harness's wrappers' semantics for short writes / errors (a failed call changes nothing)",
     ]
+    if getattr(ctx, "replay", None):
+        return run_replay(ctx, out, binp)
     n = new_serialisation_length(binp, db_small)
     ntiny = new_serialisation_length(binp, db_tiny)
     scs = matrix_scenarios() + order_scenarios() + fs_scenarios(n, ntiny, ctx.thorough)
@@ -999,7 +1069,9 @@ def run(ctx, out):
             results += res
 
     agg = {"passwd": 0, "changed": 0, "refused": 0, "snaps": 0, "snaps_bad_in_window": 0, "auth_ok": 0, "auth_fail": 0, "cred": 0,
-           "reload": 0, "prefix_unloadable": 0, "new_loadable": 0, "unsynced_success": 0, "crypt_selfverify": 0}
+           "reload": 0, "prefix_unloadable": 0, "prefix_loadable": 0, "new_loadable": 0, "unsynced_success": 0}
+    cr = {"calls": 0, "verifies_checked": 0, "verifies_failed": 0, "distinct_checked": 0, "distinct_failed": 0,
+          "failure_tokens": 0, "null": 0}
     errk = {}
     fam = {}
     reported = 0
@@ -1011,6 +1083,8 @@ def run(ctx, out):
             agg[k] += r["stats"].get(k, 0)
         for k, v in r["stats"]["errkinds"].items():
             errk[k] = errk.get(k, 0) + v
+        for k in cr:
+            cr[k] += r["stats"]["crypt"][k]
         hard = [f for f in r["findings"] if not f["in_window"]]
         soft = [f for f in r["findings"] if f["in_window"]]
         if r["crashed"]:
@@ -1054,7 +1128,12 @@ def run(ctx, out):
             out.known_finding("%s truncate-then-write is not crash-atomic: %s (replay %s; %d crash points inside the window failed in this run)" % (
                 e["id"], soft[0]["what"], e.get("replay"), kf_seen.get(e["id"], len(soft))))
 
-    # assumption checks on the crypt table observed (self-verification, distinctness)
+    if cr["verifies_failed"] or cr["distinct_failed"]:
+        out.notes.append("crypt assumption failed on observed calls (see coverage.crypt_assumptions_on_observed_calls): "
+                         "the installed libcrypt does not satisfy CryptOk for some generated password pair")
+    if agg["unsynced_success"]:
+        out.notes.append("write_user_data never calls fsync: after %d successful requests the new data was only in the page cache "
+                         "(part of F24; durability after power loss is not claimed by the model)" % agg["unsynced_success"])
     out.coverage.update({
         "traces_validated_against_impl": len(results),
         "evaluations": agg["passwd"] + agg["cred"] + agg["auth_ok"] + agg["auth_fail"] + agg["snaps"] + agg["reload"],
@@ -1066,12 +1145,13 @@ def run(ctx, out):
         "error_kinds": errk,
         "crash_points_checked": agg["snaps"], "crash_points_failing_inside_F24_window": agg["snaps_bad_in_window"],
         "snapshots_equal_to_new_serialisation_loadable": agg["new_loadable"],
-        "strict_prefix_snapshots": agg["prefix_unloadable"],
+        "strict_prefix_snapshots_unloadable": agg["prefix_unloadable"], "strict_prefix_snapshots_loadable": agg["prefix_loadable"],
+        "crypt_assumptions_on_observed_calls": cr,
         "successful_requests_left_unsynced": agg["unsynced_success"],
         "credentials_ok_verdicts_checked": agg["cred"], "authenticate_ok": agg["auth_ok"], "authenticate_refused": agg["auth_fail"],
         "reloads": agg["reload"],
         "new_serialisation_bytes": {"small": n, "tiny": ntiny},
-        "exhaustive": bool(ctx.thorough),
+        "exhaustive": bool(ctx.thorough),   # quick: the matrix and the single-short-write enumeration are complete, the pairs are strided
         "exhaustive_what": "caller kind x target kind matrix (14 x 21); ftruncate/lseek/first write outcomes incl. a short write at "
                            "EVERY byte position of the %d-byte serialisation, each then completed and then failed; " % n
                            + ("EVERY pair of two consecutive short writes on the %d-byte serialisation" % ntiny if ctx.thorough
